@@ -6,7 +6,7 @@ PROFILES = [('err', 2), ('alu', 1), ('ssa', 1), ('ssamem', 1), ('ssald', 1), ('e
 
 def run(ctx):
     return syscheck.run(
-        ctx, 'C07', ['C07', 'C05_mvp3', 'C01_mvp4', 'C05_mvp4', 'C01_mvp5', 'C05_mvp5', 'C12_mvp61', 'C01_mvp60', 'C12_mvp62', 'C12_mvp63', 'C01_mvp61'], PROFILES, S.VARIANTS, n_quick=50, n_thorough=1500,
+        ctx, 'C07', ['C07', 'C05_mvp3', 'C01_mvp4', 'C05_mvp4', 'C01_mvp5', 'C05_mvp5', 'C12_mvp61', 'C01_mvp60', 'C12_mvp62', 'C12_mvp63', 'C01_mvp61', 'C01_mvp62'], PROFILES, S.VARIANTS, n_quick=50, n_thorough=1500,
         assumptions=['cycle budget per run = 4*(MemoryAccess+60)*(executed instructions+20) VerifTick ticks, derived from the sequential run; '
                      'exceeding it, a recovered Go panic, or a dead harness process (Go-level deadlock) is a violation inside the domain',
                      'programs of the err profile reach a division by zero or an undefined label: the run must return that error value'],
